@@ -50,6 +50,9 @@ def ig_scale(state, dirs):
 
 def cmp_one(stats, bad, what, cfg, si, x, iv, scale):
     stats["n"] += 1
+    if x is None:
+        bad.append({"config": cfg["name"], "quantity": what, "state": cfg["states"][si], "reported": "NaN", "model_enclosure": iv})
+        return
     if iv is None:
         bad.append({"config": cfg["name"], "quantity": what, "state": cfg["states"][si], "reported": x, "model": "undefined (NaI)"})
         return
@@ -174,6 +177,11 @@ def run(ctx):
             api = cfg["api"][si]
             if api is None:
                 continue
+            if api["a0"] is None and encl(e0[si]) is None:
+                # the implementation returns NaN and the program is undefined at this state (e.g. outside a
+                # correlation's range): consistent, nothing to compare
+                stats["undefined_in_both"] = stats.get("undefined_in_both", 0) + 1
+                continue
             cmp_one(stats, bad, "A_res", cfg, si, api["a0"], encl(e0[si]), ig_scale(st, []))
             mid1, mid2, mid3 = [], {}, None
             for i in range(nv):
@@ -235,6 +243,7 @@ def run(ctx):
         "library_theorems": lib["obligations"], "library_files": lib["library_files"], "axioms_reported": lib["axioms"],
         "state_api_comparisons": stats["n"], "derived_quantity_comparisons": stats["n_derived"],
         "worst_discrepancy_in_units_of_tolerance": stats["worst"],
+        "states_undefined_in_model_and_implementation": stats.get("undefined_in_both", 0),
         "widest_relative_enclosure": stats["relwidth"],
         "programs_with_reinjected_f64_values": leaky,
         "finite_difference_oracle_states": fd_states,
